@@ -153,11 +153,12 @@ func c12Check(c docCase) error {
 var (
 	c12ReuseEls *simdjson.Elements
 	c12PrevKeys []string
+	c12Filter   map[string]struct{}
 )
 
 func c12Battery(c docCase) (c12Stats, error) {
 	var st c12Stats
-	c12ReuseEls, c12PrevKeys = nil, nil
+	c12ReuseEls, c12PrevKeys, c12Filter = nil, nil, nil
 	model, err := modelOf(c.In)
 	if err != nil {
 		return st, err
@@ -502,7 +503,15 @@ func c12Object(pj *simdjson.ParsedJson, roots []*rj.Node, n *rj.Node, path []int
 					mask = 1
 				}
 			}
-			filter := map[string]struct{}{}
+			// one filter map per case, emptied and refilled for every query, the way a caller keeps a scratch map: the
+			// filter is whatever the map holds when ForEach is called, not what the same map held earlier
+			if c12Filter == nil {
+				c12Filter = map[string]struct{}{}
+			}
+			filter := c12Filter
+			for k := range filter {
+				delete(filter, k)
+			}
 			for i, k := range pool {
 				if mask&(1<<uint(i)) != 0 {
 					filter[k] = struct{}{}
